@@ -20,6 +20,7 @@ def register(R):
     register_tcp_suppress(R)
     register_accept(R)
     register_tls_accept(R)
+    register_tcp_initializer(R)
 
 
 def register_udp_context(R):
@@ -115,5 +116,38 @@ def register_tls_accept(R):
         params={"cls": "classval:easynetwork/servers/async_tcp.py:AsyncTCPNetworkServer", "logger": "LoggerModel", "exc": "excany:Exception"},
         ensures=[("the-server's-own-handshake-error-hook-never-raises", "True", "C17")],
         env={"exc_universe": UNIVERSE},
+        tags="C17",
+    )
+
+
+def register_tcp_initializer(R):
+    """AsyncTCPNetworkServer.__client_initializer — the async context manager around one TCP client's whole life (was the
+    assumed ClientInitializer model): nothing but non-Exception BaseExceptions leaves it, neither while it sets the client up
+    (before the handler runs) nor from whatever the handler block or the exit callbacks raise."""
+    R.external("contextlib.aclosing", "stubs.async_backend.aclosing")
+    R.module(ST)
+    R.shape("NullContextModel", cls="NullContext", fields={})
+    R.module("easynetwork/servers/_base.py")
+    R.contract("BaseAsyncNetworkServerImpl._bind_server", result="NullContextModel", trusted=True, ensures=["True"])
+    R.module("easynetwork/lowlevel/socket.py")
+    R.assume("new_socket_address(addr, family) does not fail for the address of an accepted TCP socket (AF_INET / AF_INET6)")
+    R.contract("new_socket_address", params={"addr": "obj", "family": "obj"}, result="obj", trusted=True, ensures=["True"])
+    R.contract("enable_socket_linger", params={"sock": "obj", "timeout": "int"}, trusted=True, ensures=["True"], raises={"OSError": ["True"]})
+    R.module("easynetwork/servers/async_tcp.py")
+    R.shape("AsyncTCPNetworkServerInit", cls="AsyncTCPNetworkServer",
+            fields={"_BaseAsyncNetworkServerImpl__logger": "LoggerModel", "__client_connection_log_level": "int"})
+    R.shape("LowLevelClientModel", cls="easynetwork/lowlevel/api_async/servers/stream.py:ConnectedStreamClient", fields={})
+    R.inline_fn("AsyncTCPNetworkServer.__set_socket_linger_if_not_closed")
+    R.contract("_ConnectedClientAPI.__init__", self_shape="_ConnectedClientAPIOpaque", params={"address": "obj", "client": "AsyncBaseTransport"}, trusted=True, ensures=["True"],
+               raises={"Exception": ["True"]}, env={"raise_any": "Exception"})
+    R.shape("_ConnectedClientAPIOpaque", cls="_ConnectedClientAPI", fields={})
+    R.contract("_ConnectedClientAPI._on_disconnect", self_shape="_ConnectedClientAPIOpaque", trusted=True, ensures=["True"], raises={"BaseException": ["not typeof(exc, 'Exception')"]})
+    R.contract(
+        "AsyncTCPNetworkServer.__client_initializer", self_shape="AsyncTCPNetworkServerInit",
+        params={"lowlevel_client": "AsyncBaseTransport"}, gen="env",
+        ensures=[("the-client-block-ends-normally-whatever-Exception-it-raised", "True", "C17")],
+        raises={"BaseException": [ONLY_BASE]},
+        modifies=["lowlevel_client.close_requested"],
+        env={"yield_throw": "BaseException", "yield_send": "none", "exc_universe": UNIVERSE + ["TypedAttributeLookupError"], "desugar_exit_stack": True},
         tags="C17",
     )
